@@ -341,7 +341,10 @@ impl SimdMemOps {
         let src_aligned = (src.as_ptr() as usize) % self.cache_config.cache_line_size == 0;
         let dst_aligned = (dst.as_mut_ptr() as usize) % self.cache_config.cache_line_size == 0;
 
-        if src_aligned && dst_aligned && src.len() >= self.cache_config.cache_line_size {
+        // copy_aligned insists on 64-byte alignment whatever the configured line size is
+        let aligned64 = (src.as_ptr() as usize) % 64 == 0 && (dst.as_mut_ptr() as usize) % 64 == 0;
+
+        if src_aligned && dst_aligned && aligned64 && src.len() >= self.cache_config.cache_line_size {
             self.copy_aligned(src, dst)
         } else {
             self.copy_nonoverlapping(src, dst)
